@@ -82,7 +82,7 @@ def build_rust(packages):
             raise InfraError("cargo build -p %s failed:\n%s" % (pkg, r.stderr[-3000:]))
     for pkg in packages:
         lib, modname = RUST_MODULES[pkg]
-        path = os.path.join(REPO, "target", "debug", lib)
+        path = os.path.join(os.environ.get("CARGO_TARGET_DIR") or os.path.join(REPO, "target"), "debug", lib)
         # copy so that a concurrent rebuild cannot change the mapped file
         dst = os.path.join(subdir("rust"), modname.split(".")[-1] + ".so")
         shutil.copy2(path, dst)
